@@ -469,6 +469,11 @@ func (vx *Vaxis) handleSequence(seq ansi.Sequence)
   requires wf: typeis(seq, "ansi.CSI") ==> CSIWF(unbox(seq, "ansi.CSI"))
   -- a cursor-position reply (CSI ... R while a query is outstanding) ends the query: the next CSI R is a key again
   ensures C03_cpr: (typeis(seq, "ansi.CSI") && unbox(seq, "ansi.CSI").Final == 82 && old(vx.reqCursorPos) == 1) ==> vx.reqCursorPos == 0
+  -- an SGR mouse report (CSI < b ; x ; y M/m) becomes exactly one posted event, delivered with the blocking send (the
+  -- non-blocking one drops events when the queue is full and is not logged)
+  ensures C03_mouse1: (typeis(seq, "ansi.CSI") && (unbox(seq, "ansi.CSI").Final == 77 || unbox(seq, "ansi.CSI").Final == 109)
+                       && len(unbox(seq, "ansi.CSI").Intermediate) == 1 && unbox(seq, "ansi.CSI").Intermediate[0] == 60 && len(unbox(seq, "ansi.CSI").Parameters) == 3)
+                      ==> loglen("posted") == old(loglen("posted")) + 1
   ensures C07_rpm_no: (IsRPM(seq) && RPMStatus(seq) != 1 && RPMStatus(seq) != 2) ==> loglen("posted") == old(loglen("posted"))
   ensures C07_rpm_2027: (IsRPM(seq) && RPMMode(seq) == 2027 && (RPMStatus(seq) == 1 || RPMStatus(seq) == 2)) ==>
         (loglen("posted") == old(loglen("posted")) + 1 && typeis(logat("posted", old(loglen("posted"))), "vaxis.unicodeCoreCap"))
@@ -825,6 +830,9 @@ func (vx *Vaxis) disableModes()
   ensures C04_off:  forall m in -1..10000: (Tracked(m) && StartMode(vx, m)) ==> mode(m) == 0
   ensures C04_keep: forall m in -1..10000: (Tracked(m) && !StartMode(vx, m)) ==> mode(m) == old(mode(m))
   ensures C04_kitty: mode(-2) == old(mode(-2)) - (vx.caps.kittyKeyboard ? 1 : 0)
+  -- the pointer is given back with the shape terminals start with ("text"; mode(-4) == 1 says that the shape last
+  -- requested with OSC 22 is that one), whatever shape the application asked for
+  ensures C04_pointer: mode(-4) == 1
   ensures wf: WriterWF(vx.tw)
 
 -- (both flush: the writer's buffer is empty afterwards; the cursor is left hidden on entry -- unless it was and stays
@@ -862,6 +870,8 @@ func (vx *Vaxis) Suspend() error
   ensures C04_cursor: mode(25) == 1
   -- and it has the shape the user asked for (or the default), whatever shapes the application showed
   ensures C04_shape: mode(-3) == vx.userCursorStyle
+  -- and the pointer has the shape terminals start with
+  ensures C04_pointer: mode(-4) == 1
 
 -- a second Close is harmless: nothing is written
 func (vx *Vaxis) Close()
@@ -871,6 +881,7 @@ func (vx *Vaxis) Close()
   ensures C04_closed: vx.closed
   ensures C04_cursor: !old(vx.closed) ==> mode(25) == 1
   ensures C04_shape: !old(vx.closed) ==> mode(-3) == vx.userCursorStyle
+  ensures C04_pointer: !old(vx.closed) ==> mode(-4) == 1
   ensures C04_off: !old(vx.closed) ==> ((forall m in -1..10000: (Tracked(m) && StartMode(vx, m)) ==> mode(m) == 0) && mode(1049) == 0
                                          && mode(-2) == old(mode(-2)) - (vx.caps.kittyKeyboard ? 1 : 0))
 @*/
